@@ -248,7 +248,7 @@ PROPS = {
     "C02": dict(
         # Props.GoEpochCache: the epoch-cache functions of the model = the translated bodies of leader_epoch_cache.go (GoMini)
         # Props.GoPartition: the reconciliation branches of the protocol model = the translated bodies of truncateUncommitted / truncateToHW
-        lean_modules=["Liftbridge.Props.C02", "Liftbridge.Props.GoEpochCache", "Liftbridge.Props.GoPartition", "Liftbridge.Props.GoCommit", "Liftbridge.Props.GoReplication", "Liftbridge.Props.GoTruncate"],
+        lean_modules=["Liftbridge.Props.C02", "Liftbridge.Props.GoEpochCache", "Liftbridge.Props.GoPartition", "Liftbridge.Props.GoCommit", "Liftbridge.Props.GoReplication", "Liftbridge.Props.GoTruncate", "Liftbridge.Props.GoLogEpoch"],
         gen_sources=["server/partition.go", "server/replicator.go", "server/metadata.go", "server/commitlog/commitlog.go", "server/commitlog/leader_epoch_cache.go"],
         runs=[dict(go_pkg="./server/commitlog", test="TestVerifC02"), dict(go_pkg="./server", test="TestVerifC02ISR"), dict(go_pkg="./server", test="TestVerifC02Terms"),
               dict(go_pkg="./server", test="TestVerifC02Cluster"), dict(go_pkg="./server", test="TestVerifC02Reconcile"), dict(go_pkg="./server", test="TestVerifC02IsrPersist"),
